@@ -11,10 +11,20 @@
   and memmove of `mpt_buffer_insert`, the memmove of `mpt_buffer_cut`, the grow loop of `mpt_array_slice`, the
   element-wise copy and the move of `detach`, the copy / clear / retype paths of `mpt_array_reserve` — each for
   all element sizes ≥ 4, counts, positions and EVERY constructor-failure schedule.  On top of these:
-  `exactly_once` (one operation), `exactly_once_history` (whole histories; nothing is alive after the last handle
-  is dropped), `ctor_failure`, and `cxx_exactly_once` (C++ `resize`/`trim`/`skip`/`insert`).  The theorems speak
-  about heaps in which every live buffer holds managed elements (constructor, destructor, ≥ 4 bytes) and about
-  runs whose token counter stays below 2^32 (tokens are 32 bit in the elements).
+  `exactly_once` (one operation of `EOp`: reserve, slice, insert, set with/without sources, cut, clone, drop, detach,
+  reduce, buffer-level set with/without sources), `exactly_once_history` (whole histories; nothing is alive after the
+  last handle is dropped), `ctor_failure`, `cxx_exactly_once` (every C++ operation of `XEOp`: resize, trim, skip,
+  insert by default / placement / copy of a caller's element, reserve, detach, assignment, destruction) and
+  `exactly_once_history_cxx` (histories mixing both alphabets).
+
+  Scope, stated honestly: the theorems speak about heaps in which EVERY live buffer holds managed elements of the
+  harness token type (constructor, destructor, ≥ 4 bytes), about `slice`/`insert` on handles that hold a buffer, and
+  about runs whose token counter stays below 2^32 (tokens are 32 bit in the elements).  Not covered by any theorem
+  (correspondence run only): heaps that also hold plain buffers, destructor-only element types (`f8`,
+  `reference_array<T>`), the library's own element types (arrays of arrays, metatype references: model
+  `Impl/Refs.lean`), `buffer::copy` / `buffer::move` (not modelled, not driven).  The judgement the model driver
+  applies in the run (`Driver/Array.lean` `judge`) is `replay` plus "live set = stored tokens", i.e. the objects of
+  these theorems.
 -/
 import MptModel.Lemmas.HeapElem
 import MptModel.Lemmas.HeapHist
@@ -249,33 +259,53 @@ example :
        | _ => [])
      | _ => []) = [Ev.fini 3, Ev.fini 4, Ev.fini 5, Ev.fini 6] := by decide
 
-/-- exactly-once for the C++ layer, every schedule: `unique_array::resize` (reserve + `content<T>::set_length`:
-    `buffer::trim` or default construction of the new elements), `detach()` + `buffer::trim`, `detach()` +
-    `buffer::skip`, and `unique_array::insert` (reserve, `mpt_buffer_insert`, placement construction) on a typed
-    array whose buffer (if any) has the array's element type never fault, keep the structural invariant, and
-    their callback events are legal for the live set and lead to the live set the buffers store -/
-theorem cxx_exactly_once (s : State) (live : Tokens.Live) (h n : Nat) (k : XKind) (inv : InvM s) (ti : TokInv s live)
-    (hlt : h < s.hs.length) (mt : Managed k.t)
-    (hk : ∀ b x, s.handle h = some b → s.buf? b = some x → x.traits = some k.t) :
-    ∀ r, (r = uResize s h k n ∨ r = xTrim s h k n ∨ r = xSkip s h k n ∨ ∃ pos val, r = uInsert s h k pos val none) →
-    match r with
+/-- exactly-once for the C++ layer, every schedule: every operation the harness performs on `typed_array<T>` /
+    `unique_array<T>` with a managed element type (`XEOp`: resize, detach + `buffer::trim` / `buffer::skip`,
+    insert with default / placement construction, `T val; insert(pos, val)` with its temporary source element,
+    reserve, detach, assignment / copy construction, destruction) on an array whose buffer (if any) has the array's
+    element type never faults, keeps the structural invariant, and its callback events are legal for the live set
+    and lead to the live set the buffers store -/
+theorem cxx_exactly_once (s : State) (live : Tokens.Live) (k : XKind) (op : XEOp) (inv : InvM s) (ti : TokInv s live)
+    (pre : op.pre s k) :
+    match execXE s k op with
     | .fault _ => False
     | .ok s' _ => InvM s' ∧ (s'.next ≤ tokLimit →
         ∃ live', replay live (s'.log.drop s.log.length) = some live' ∧ TokInv s' live')
     | .fail s' _ => InvM s' ∧ (s'.next ≤ tokLimit →
         ∃ live', replay live (s'.log.drop s.log.length) = some live' ∧ TokInv s' live') := by
-  intro r hr
-  have gs := GoodS.of_inv inv ti
-  have ok : OpOK [] s r := by
-    rcases hr with e | e | e | ⟨pos, val, e⟩
-    · rw [e]; exact uResize_ok gs hlt k mt n
-    · rw [e]; exact xTrim_ok gs hlt k mt n
-    · rw [e]; exact xSkip_ok gs hlt k mt n
-    · rw [e]; exact uInsert_ok gs hlt k mt hk pos val
+  have ok := execXE_ok (GoodS.of_inv inv ti) k op pre
+  generalize execXE s k op = r at ok
   cases r with
   | fault w => exact ok
   | ok s' v => exact ⟨Step.inv ok, fun small => Step.replay ok ti small⟩
   | fail s' e => exact ⟨Step.inv ok, fun small => Step.replay ok ti small⟩
+
+/-- histories that mix the C operations and the C++ operations (failed ones included): the events of the whole history
+    are legal and end in the live set the buffers store; nothing is alive once no handle holds a buffer -/
+theorem exactly_once_history_cxx (s s' : State) (live : Tokens.Live) (ops : List (EOp ⊕ (XKind × XEOp))) (inv : InvM s)
+    (ti : TokInv s live) (hi : HistX s ops s') :
+    InvM s' ∧ (s'.next ≤ tokLimit →
+      ∃ live', replay live (s'.log.drop s.log.length) = some live' ∧ TokInv s' live' ∧
+        ((∀ h, s'.handle h = none) → live' = [])) := by
+  have st := hi.step (GoodS.of_inv inv ti)
+  refine ⟨st.inv, fun small => ?_⟩
+  obtain ⟨live', h1, h2⟩ := st.replay ti small
+  refine ⟨live', h1, h2, fun hn => ?_⟩
+  have := h2.1
+  rw [stored_nil_of_no_handle st.inv hn] at this
+  exact List.perm_nil.mp this
+
+/-- a history of the model that reaches a non-empty state (the hypotheses of the theorems are met along real runs):
+    three elements, a shared copy, then a detach under a schedule that refuses the first copy constructor — the
+    refused copy falls back to default construction (token 4), the others are copies -/
+example : ∃ s', Hist { hs := [none, none], wins := [none, none], oracle := [false, false, false, true] }
+    [.reserve 0 0 m4, .slice 0 0 12, .clone 1 0, .detach 1 12] s' ∧
+    s'.log = [.init 1, .init 2, .init 3, .fail, .init 4, .copy 5 2, .copy 6 3] := by
+  refine ⟨_, .ok ?_ rfl (.ok ?_ rfl (.ok ?_ rfl (.ok ?_ rfl (.nil _)))), by decide⟩
+  · exact ⟨by decide, by decide, by decide, by decide⟩
+  · show State.handle _ 0 ≠ none; decide
+  · show 1 < List.length _; decide
+  · trivial
 
 /-! ### buffers of references (arrays of arrays, metatype references; model `Impl/Refs.lean`)
 
